@@ -264,4 +264,54 @@ theorem rowKey_eq_iff {a b : Cell} : rowKey a = rowKey b ↔ a.md = b.md ∧ a.p
   constructor
   · rintro ⟨⟨h1, h2⟩, h3⟩; exact ⟨h3, h1, h2⟩
   · rintro ⟨h3, h1, h2⟩; exact ⟨⟨h1, h2⟩, h3⟩
+
+/-- the cumulative form the operators work on: `t` itself, or `to_cumulative(t)` -/
+def CumOf (t cum : List Cell) : Prop :=
+  (Triangle.isIncremental t = false ∧ cum = t) ∨
+  (Triangle.isIncremental t = true ∧ Triangle.toCumulative t = .ok cum)
+
+/-- `t` and `cum` have the same rows and the same evaluation dates on every row -/
+def SameGrid (t cum : List Cell) : Prop :=
+  (∀ c ∈ cum, ∃ x ∈ t, rowKey x = rowKey c ∧ x.ev = c.ev) ∧
+  (∀ x ∈ t, ∃ c ∈ cum, rowKey c = rowKey x ∧ c.ev = x.ev)
+
+theorem CumOf.sameGrid {t cum : List Cell} (h : CumOf t cum) : SameGrid t cum := by
+  rcases h with ⟨_, rfl⟩ | ⟨hinc, hcum⟩
+  · exact ⟨fun c hc => ⟨c, hc, rfl, rfl⟩, fun x hx => ⟨x, hx, rfl, rfl⟩⟩
+  · obtain ⟨hA, hB⟩ := toCumulative_cells hinc hcum
+    exact ⟨fun c hc => (hA c hc).2, hB⟩
+
+theorem CumOf.unique {t cum cum' : List Cell} (h : CumOf t cum) (h' : CumOf t cum') : cum' = cum := by
+  rcases h with ⟨h1, h2⟩ | ⟨h1, h2⟩ <;> rcases h' with ⟨g1, g2⟩ | ⟨g1, g2⟩
+  · rw [h2, g2]
+  · rw [h1] at g1; cases g1
+  · rw [h1] at g1; cases g1
+  · rw [h2] at g2; cases g2; rfl
+
+theorem devLag_of_row {x c : Cell} (hk : rowKey x = rowKey c) (hev : x.ev = c.ev) (u : LagUnit) :
+    x.devLag u = c.devLag u := by
+  obtain ⟨_, _, h3⟩ := rowKey_eq_iff.mp hk
+  unfold Cell.devLag
+  rw [h3, hev]
+
+theorem lagListOf_int {lags : Option (List Rat)} {slice : List Cell}
+    (hal : ∀ c ∈ slice, MonthAligned c)
+    (hint : ∀ l, lags = some l → ∀ lag ∈ l, ∃ k : Int, lag = ((k : Int) : Rat)) :
+    ∀ lag ∈ lagListOf lags .month slice, ∃ k : Int, lag = ((k : Int) : Rat) := by
+  intro lag hlag
+  cases lags with
+  | some l => exact hint l rfl lag hlag
+  | none =>
+    simp only [lagListOf, List.mem_eraseDups] at hlag
+    obtain ⟨c, hc, rfl⟩ := List.mem_map.mp hlag
+    obtain ⟨_, hpe, _, hee, _, _⟩ := hal c hc
+    exact ⟨_, devLagMonths_monthEnds hpe hee⟩
+
+theorem monthAligned_of_row {x e : Cell} (hk : rowKey x = rowKey e) (hev : x.ev = e.ev)
+    (hx : MonthAligned x) : MonthAligned e := by
+  obtain ⟨_, _, h3⟩ := rowKey_eq_iff.mp hk
+  unfold MonthAligned at *
+  rw [← h3, ← hev]; exact hx
+
+
 end Bermuda.Extend
